@@ -300,8 +300,8 @@ impl ZincEncode for Grid {
         }
         writer.write_all(b"\n")?;
 
-        if self.is_empty() {
-            // No rows to be written
+        if self.columns.is_empty() {
+            // No columns to be written
             writer.write_all(b"empty\n")?;
         } else {
             // Columns
